@@ -272,3 +272,103 @@ def bounded_entity_models(tier, seed):
             w.shutdown()
     return {"bound": f"{len(shapes)} entity trees (two models, children of the other model, nesting depth <= 2), every entity x (own output, "
                      "other model's output) connected to a plain entity", "cases": cases, "failures": failures[:5]}
+
+
+def bounded_classification_wiring(tier, seed):
+    """Bounded stand-in for the WIRING around parse_attrs (which is under contract, C12): World.start -> ModelFactory ->
+    ModelMock.__init__ must store the four sets parse_attrs returns under the right names, input_attrs / output_attrs must be
+    their unions, Entity.triggered_by / is_persistent must read the right sets -- and a description parse_attrs rejects must be
+    rejected at start.  Real in-process simulators, model descriptions over the attributes a, b, c."""
+    import itertools
+    import sys
+    import types
+    import warnings
+    import mosaik
+    import mosaik_api_v3
+    from mosaik.exceptions import ScenarioError
+    from mosaik.scenario import parse_attrs
+    warnings.simplefilter("ignore")
+    try:
+        from loguru import logger
+        logger.remove()
+    except Exception:  # noqa: BLE001
+        pass
+    attrs = ["a", "b", "c"]
+    opts = [None, [], ["a"], ["a", "b"]]
+    descs = []
+    for trig, nontrig, pers, nonpers in itertools.product(opts, opts, [None, ["c"]], [None, ["c"], []]):
+        d = {"public": True, "params": [], "attrs": list(attrs)}
+        for k, v in (("trigger", trig), ("non-trigger", nontrig), ("persistent", pers), ("non-persistent", nonpers)):
+            if v is not None:
+                d[k] = list(v)
+        descs.append(d)
+    descs.append({"public": True, "params": [], "any_inputs": True, "attrs": ["c"], "trigger": ["a"]})
+    descs.append({"public": True, "params": [], "any_inputs": True, "attrs": ["c"], "non-trigger": ["a"]})
+    if tier != "thorough":
+        descs = descs[::3] + descs[-2:]
+    failures, cases = [], 0
+    for typ in ("time-based", "event-based", "hybrid"):
+        for desc in descs:
+            cases += 1
+            meta = {"api_version": "3.0", "type": typ, "models": {"M": desc}}
+
+            class Sim(mosaik_api_v3.Simulator):
+                def __init__(self, meta=meta):
+                    super().__init__(meta)
+
+                def init(self, sid, time_resolution=1.0, **kw):
+                    return self.meta
+
+                def create(self, num, model, **kw):
+                    return [{"eid": f"e{i}", "type": model} for i in range(num)]
+
+                def step(self, time, inputs, max_advance):
+                    return time + 1
+
+                def get_data(self, outputs):
+                    return {}
+            mod = types.ModuleType("_c12_sims")
+            mod.Sim = Sim
+            sys.modules["_c12_sims"] = mod
+            try:
+                exp = parse_attrs(desc, typ)
+            except ValueError:
+                exp = None
+            w = mosaik.World({"S": {"python": "_c12_sims:Sim"}}, skip_greetings=True)
+            try:
+                try:
+                    f = w.start("S")
+                    started = True
+                except (ScenarioError, ValueError):
+                    started = False
+                problems = []
+                if started != (exp is not None):
+                    problems.append(f"start {'accepted' if started else 'rejected'} the description although parse_attrs "
+                                    f"{'rejects' if exp is None else 'accepts'} it")
+                elif started:
+                    mm = f.M
+                    got = (mm.measurement_inputs, mm.event_inputs, mm.measurement_outputs, mm.event_outputs)
+                    names = ("measurement_inputs (non-trigger)", "event_inputs (trigger)", "measurement_outputs (persistent)", "event_outputs (non-persistent)")
+                    for n_, g_, e_ in zip(names, got, exp):
+                        if not (g_ == e_):
+                            problems.append(f"ModelMock.{n_} is {g_!r}, parse_attrs gives {e_!r}")
+                    ent = f.M()
+                    for x in attrs + ["zzz"]:
+                        if (x in mm.input_attrs) != ((x in exp[0]) or (x in exp[1])):
+                            problems.append(f"input_attrs membership of {x!r}")
+                        if (x in mm.output_attrs) != ((x in exp[2]) or (x in exp[3])):
+                            problems.append(f"output_attrs membership of {x!r}")
+                        if ent.triggered_by(x) != (x in exp[1]):
+                            problems.append(f"Entity.triggered_by({x!r}) is {ent.triggered_by(x)}")
+                        if ent.is_persistent(x) != (x in exp[2]):
+                            problems.append(f"Entity.is_persistent({x!r}) is {ent.is_persistent(x)}")
+                if problems:
+                    failures.append({"desc": f"type {typ}, description {desc}: " + "; ".join(problems[:4]), "case": {"type": typ, "desc": desc}})
+            finally:
+                w.shutdown()
+            if len(failures) >= 5:
+                break
+        if len(failures) >= 5:
+            break
+    return {"bound": f"{len(descs)} model descriptions over attrs a, b, c (trigger / non-trigger / persistent / non-persistent absent or listed, any_inputs) "
+                     "x three simulator types, through World.start", "cases": cases, "failures": failures}
